@@ -169,9 +169,13 @@ theorem dlv_cases (c : Cfg) :
   · exact .inr ⟨_, _, by simp, by simp, by simp, rfl⟩
 
 @[simp] theorem dlv_out (c : Cfg) : (dlv c).A.out = c.A.out := by
-  rcases dlv_cases c with h | ⟨c1, s, h1, _, _, h⟩ <;> simp [h, *]
+  rcases dlv_cases c with h | ⟨c1, s, h1, _, _, h⟩
+  · rw [h]
+  · simp [h, h1]
 @[simp] theorem dlv_code (c : Cfg) : (dlv c).code = c.code := by
-  rcases dlv_cases c with h | ⟨c1, s, _, h1, _, h⟩ <;> simp [h, *]
+  rcases dlv_cases c with h | ⟨c1, s, _, h1, _, h⟩
+  · rw [h]
+  · simp [h, h1]
 theorem dlv_tr (c : Cfg) : QT c.tr (dlv c).tr := by
   rcases dlv_cases c with h | ⟨c1, s, _, _, h1, h⟩
   · simp [h]
